@@ -49,6 +49,7 @@ TIERS = {
     "thorough": {"runs": 12000, "chunk": 30, "wall": 800, "chunk_timeout": 600, "selftest": 8, "values": 6},
 }
 ISOLATE_RUNS = True
+OPTIMIZE_SHARE = 0.04      # this share of the runs executes under `python -O`
 
 
 def preload():
@@ -59,9 +60,9 @@ def preload():
 
 
 EXPECTED_PROBES = {
-    "quick": ["cut_in_str_payload", "cut_in_last_str_payload", "inflate_str", "inflate_dyn", "cut_in_float", "flag_set", "flip_made_message_short",
+    "quick": ["cut_in_str_payload", "cut_in_last_str_payload", "inflate_str", "inflate_dyn", "cut_in_float", "flag_set", "flip_made_message_short", "retry_same_buffer_object", "long_message_sampled_cuts",
               "str_at_unaligned_offset", "vectors_checked"],
-    "thorough": ["cut_in_str_payload", "cut_in_last_str_payload", "inflate_str", "inflate_dyn", "cut_in_float", "flag_set", "flip_made_message_short",
+    "thorough": ["cut_in_str_payload", "cut_in_last_str_payload", "inflate_str", "inflate_dyn", "cut_in_float", "flag_set", "flip_made_message_short", "retry_same_buffer_object", "long_message_sampled_cuts",
                  "str_at_unaligned_offset", "vectors_checked"],
 }
 PAGE = os.sysconf("SC_PAGE_SIZE")
@@ -355,7 +356,8 @@ def gen_value(rng, t, structs, depth=0):
     if k == "f64":
         return rng.choice([0.0, 1.0, -1.0, rng.uniform(-1e12, 1e12), 5e-324, float("-inf")])
     if k == "str":
-        n = weighted(rng, [(0, 2), (1, 2), (rng.randint(2, 12), 5), (rng.randint(13, 40), 1.5), (rng.randint(100, 300), 0.3)])
+        n = weighted(rng, [(0, 2), (1, 2), (rng.randint(2, 12), 5), (rng.randint(13, 40), 1.5), (rng.randint(100, 300), 0.3),
+                           (rng.choice([255, 256, 257, 511, 512, 513, 1024, 2048]), 0.25)])
         alphabet = "abcdefghijklmnopqrstuvwxyz ABCXYZ0123456789_-\x00\x7f"
         return "".join(rng.choice(alphabet) for _ in range(n))
     if k == "struct":
@@ -459,6 +461,30 @@ class Receiver:
             except (ValueError, OSError):
                 pass
 
+    def decode_twice_same_object(self, fcp, name, data):
+        """A caller that retries with the very same bytearray object after an error (C16 says nothing about the buffer
+        being consumed): returns the outcome of the SECOND decode."""
+        buf = bytearray(data)
+        first = self._decode_obj(fcp, name, buf)
+        second = self._decode_obj(fcp, name, buf)
+        return first, second, bytes(buf) != bytes(data)
+
+    def _decode_obj(self, fcp, name, buf):
+        self.count = 0
+        self.budget = 20000 + 2000 * max(len(buf), 1)
+        sys.settrace(self._global)
+        try:
+            v = self.serde.decode(fcp, name, buf)
+            return "value", v
+        except WorkExceeded:
+            return "work", None
+        except (MemoryError, RecursionError) as e:
+            return "memory", type(e).__name__
+        except Exception as e:
+            return "error", type(e).__name__
+        finally:
+            sys.settrace(None)
+
     def decode_untraced(self, fcp, name, data):
         try:
             return "value", self.serde.decode(fcp, name, bytearray(data))
@@ -492,6 +518,8 @@ def landing(spans, bit):
 
 def apply_fault(data: bytes, fault):
     """fault: ["cut", k] | ["inflate", bit, L, cut_or_None] | ["flag_set", bit, cut_or_None]"""
+    if fault and fault[-1] == "retry":
+        fault = fault[:-1]
     if fault[0] == "cut":
         return data[:fault[1]]
     if fault[0] == "none":
@@ -600,7 +628,16 @@ def run_one(seed: int, index: int, tier: str) -> dict:
             if len(data) > 400:
                 stats["long_message"] += 1
             n = len(data)
-            flist = [["cut", k] for k in range(n)]
+            if n <= 400:
+                flist = [["cut", k] for k in range(n)]           # every byte boundary
+            else:
+                # a long message: every boundary near the ends and around each wire element boundary, a stride elsewhere
+                ks = set(range(0, 24)) | set(range(n - 40, n)) | set(range(0, n, 37))
+                for a, b, kind in spans:
+                    if kind in ("str_prefix", "dyn_prefix", "opt_flag", "float"):
+                        ks |= set(range(max(0, a // 8 - 2), min(n, b // 8 + 3)))
+                flist = [["cut", k] for k in sorted(k for k in ks if 0 <= k < n)]
+                probes["long_message_sampled_cuts"] += 1
             for bit, ln, kind in prefixes:
                 probes["str_at_unaligned_offset"] += 1 if (kind == "str" and bit % 8) else 0
                 for lname, L in INFLATE:
@@ -648,6 +685,15 @@ def run_one(seed: int, index: int, tier: str) -> dict:
                     probes["flag_set"] += 1
                 elif fault[0] == "flip":
                     probes["flip_made_message_short"] += 1
+                if v is None and outcome == "error" and rf.random() < 0.04:
+                    # retry: the same buffer object is handed to decode() again
+                    bad = apply_fault(data, fault)
+                    first, second, mutated = rx.decode_twice_same_object(fcp, top, bad)
+                    probes["retry_same_buffer_object"] += 1
+                    if second[0] == "value":
+                        v = ("fabricated_value", landing(spans, fault[1] if fault[0] != "cut" else 8 * fault[1]) if spans else "?",
+                             f"second decode of the SAME bytearray object returned {str(second[1])[:100]!r} (first: {first[0]}; buffer mutated by decode: {mutated})")
+                        fault = fault + ["retry"]
                 if v is not None:
                     nv += 1
                     cls, land, msg = v
@@ -700,6 +746,9 @@ def check_workload(w):
     if not same_value(ctl[1], ref) and w.get("source") != "real":
         return []
     outcome, payload, work = rx.decode(fcp, w["struct"], bad)
+    if outcome == "error" and fault[-1] == "retry":
+        first, second, mutated = rx.decode_twice_same_object(fcp, w["struct"], bad)
+        outcome, payload = second
     if outcome == "error":
         return []
     cls = "fabricated_value" if outcome == "value" else "unbounded_work"
